@@ -461,7 +461,10 @@ func c16MwJudge(sc c16MwScenario, res *c16MwResult, parked func() []string) (ver
 			}
 		}
 	case "server":
-		if res.completedAtRet != 1 {
+		// (when the client went away, the goroutine that watches the request context may be the one that
+		// completes the trace and may still be inside Collector.Complete when the handler returns: the
+		// statement asks for exactly one completion, not for it to precede the return)
+		if res.completedAtRet != 1 && !res.cancelHappened {
 			add("mw-not-complete-at-return", "the trace was not complete when the handler middleware returned (%d completions)", res.completedAtRet)
 		}
 		if !res.cancelHappened {
